@@ -60,6 +60,9 @@ pub struct Printer<'a> {
     pub style: &'a Style,
     pub out: Vec<String>,
     pub exporter: Option<Exporter>,
+    pub mutator: Option<crate::core::mutate::Mutator>,
+    /// where the next checking site sits (set by the parent construct; used for mutation labels)
+    pub hint: &'static str,
 }
 
 pub fn prelude(repo: &Path) -> String {
@@ -152,9 +155,9 @@ pub fn f64_literal(bits: u64) -> String {
 
 impl<'a> Printer<'a> {
     pub fn new(prog: &'a Program, names: &'a Names, style: &'a Style) -> Self {
-        Printer { prog, names, style, out: vec![], exporter: None }
+        Printer { prog, names, style, out: vec![], exporter: None, mutator: None, hint: "root" }
     }
-    fn p(&mut self, s: &str) {
+    pub(crate) fn p(&mut self, s: &str) {
         self.out.push(s.to_string());
     }
 
@@ -277,7 +280,7 @@ impl<'a> Printer<'a> {
         }
     }
 
-    fn tyarg(&mut self, a: &TyArg) {
+    pub(crate) fn tyarg(&mut self, a: &TyArg) {
         match a {
             | TyArg::V(v) => self.vty(v, 0),
             | TyArg::C(c) => self.cty(c, 0),
@@ -293,7 +296,22 @@ impl<'a> Printer<'a> {
                 self.p(&n)
             }
             | Pat::Wild => self.p("_"),
-            | Pat::Unit => self.p("()"),
+            | Pat::Unit => {
+                if let Some(ch) = self.mut_site(11) {
+                    self.applied("pattern-of-wrong-shape", false, "Unit", "pattern");
+                    if ch % 2 == 0 {
+                        for tok in ["(", "_", ",", "_", ")"] {
+                            self.p(tok);
+                        }
+                    } else {
+                        for tok in ["+Zq", "(", ")"] {
+                            self.p(tok);
+                        }
+                    }
+                    return;
+                }
+                self.p("()")
+            }
             | Pat::Tuple(items) => {
                 let n = items.len();
                 self.p("(");
@@ -321,7 +339,11 @@ impl<'a> Printer<'a> {
                 self.p(")");
             }
             | Pat::Ctor(d, c, inner) => {
-                let name = self.prog.datas[*d].ctors[*c].0.clone();
+                let mut name = self.prog.datas[*d].ctors[*c].0.clone();
+                if self.mut_site(10).is_some() {
+                    self.applied("unknown-constructor", false, "Data", "pattern");
+                    name = "+Zq".into();
+                }
                 self.p(&name);
                 match &**inner {
                     | Pat::Unit => self.p("()"),
@@ -346,11 +368,18 @@ impl<'a> Printer<'a> {
         }
     }
 
-    fn pat_ann(&mut self, p: &Pat, t: &VTy) {
+    pub(crate) fn pat_ann(&mut self, p: &Pat, t: &VTy) {
         self.p("(");
         self.pat(p);
         self.p(":");
-        self.vty(t, 5);
+        if let Some(ch) = self.mut_site(13) {
+            // the parameter annotation of a function / clause checked against a known arrow / destructor type
+            let t2 = self.near_v(t, ch);
+            self.applied("parameter-annotation-changed", false, Self::former_v(t), "fn-param");
+            self.vty(&t2, 5);
+        } else {
+            self.vty(t, 5);
+        }
         self.p(")");
     }
 
@@ -358,6 +387,15 @@ impl<'a> Printer<'a> {
 
     /// Print a value in checking position against `t`, as an atomic term.
     pub fn val(&mut self, v: &Val, t: &VTy) {
+        let kind = match t {
+            | VTy::Data(_) => 1,
+            | VTy::Thk(_) => 2,
+            | _ => 0,
+        };
+        if let Some(ch) = self.mut_site(kind) {
+            self.mutate_val(v, t, ch);
+            return;
+        }
         if self.style.extra_parens && matches!(v, Val::Var(_) | Val::Int(..) | Val::Str(_)) {
             self.p("(");
             self.val_inner(v, t);
@@ -369,7 +407,7 @@ impl<'a> Printer<'a> {
 
     /// Text and signature of a closed literal value that can live in a provider file (its type must be
     /// synthesisable without the prelude: Int64, String, Char, Unit and products of them).
-    fn closed_literal(v: &Val, t: &VTy) -> Option<(String, String)> {
+    pub(crate) fn closed_literal(v: &Val, t: &VTy) -> Option<(String, String)> {
         match (v, t) {
             | (Val::Int(crate::hmodel::IntTy::I64, n), VTy::Int(crate::hmodel::IntTy::I64)) => Some((format!("{n}"), "(@(intrinsic(i64)))".into())),
             | (Val::Str(s), VTy::Str) => Some((escape_str(s), "(@(intrinsic(string)))".into())),
@@ -387,7 +425,7 @@ impl<'a> Printer<'a> {
         }
     }
 
-    fn val_inner(&mut self, v: &Val, t: &VTy) {
+    pub(crate) fn val_inner(&mut self, v: &Val, t: &VTy) {
         if self.exporter.is_some() {
             if let Some((text, sig)) = Self::closed_literal(v, t) {
                 let ex = self.exporter.as_mut().unwrap();
@@ -462,6 +500,7 @@ impl<'a> Printer<'a> {
                                 self.p("(");
                             }
                         }
+                        self.hint = "tuple-component";
                         self.val(it, &comp_ty(i));
                     }
                     for _ in 0..n - 2 {
@@ -472,20 +511,26 @@ impl<'a> Printer<'a> {
                         if i > 0 {
                             self.p(",");
                         }
+                        self.hint = "tuple-component";
                         self.val(it, &comp_ty(i));
                     }
                 }
                 self.p(")");
             }
             | Val::Ctor(d, c, payload) => {
-                let (name, pty) = self.prog.datas[*d].ctors[*c].clone();
+                let (mut name, pty) = self.prog.datas[*d].ctors[*c].clone();
+                if self.mut_site(9).is_some() {
+                    self.applied("unknown-constructor", false, "Data", "value");
+                    name = "+Zq".into();
+                }
                 self.p(&name);
                 match &**payload {
                     | Val::Unit => self.p("()"),
                     | Val::Tuple(_) => self.val_inner(payload, &pty),
                     | other => {
                         self.p("(");
-                        self.val_inner(other, &pty);
+                        self.hint = "constructor-payload";
+                        self.val(other, &pty);
                         self.p(")");
                     }
                 }
@@ -493,6 +538,7 @@ impl<'a> Printer<'a> {
             | Val::Thunk(c) => {
                 let VTy::Thk(b) = t else { panic!("harness: thunk printed against non-thunk type {t:?}") };
                 self.p("{");
+                self.hint = "thunk-body";
                 self.comp(c, b);
                 self.p("}");
             }
@@ -500,7 +546,7 @@ impl<'a> Printer<'a> {
     }
 
     /// A value in synthesis position (scrutinee, forced value): neutral or annotated.
-    fn val_syn(&mut self, v: &Val, t: &VTy) {
+    pub(crate) fn val_syn(&mut self, v: &Val, t: &VTy) {
         match v {
             | Val::Var(_) | Val::Host(_) => self.val_inner(v, t),
             | _ => {
@@ -515,7 +561,7 @@ impl<'a> Printer<'a> {
 
     /* --------------------------- computations ----------------------------- */
 
-    fn neutral(c: &Comp) -> bool {
+    pub(crate) fn neutral(c: &Comp) -> bool {
         match c {
             | Comp::Force(Val::Var(_) | Val::Host(_), _) => true,
             | Comp::App(h, _, _) | Comp::TApp(h, _, _) | Comp::Dtor(h, _, _, _) => Self::neutral(h),
@@ -524,7 +570,7 @@ impl<'a> Printer<'a> {
     }
 
     /// A computation in synthesis position (head of an elimination, `do` bindee).
-    fn head(&mut self, c: &Comp, t: &CTy, atomic: bool) {
+    pub(crate) fn head(&mut self, c: &Comp, t: &CTy, atomic: bool) {
         if Self::neutral(c) {
             let simple = matches!(c, Comp::Force(..));
             if atomic && !simple {
@@ -545,6 +591,10 @@ impl<'a> Printer<'a> {
 
     /// Print a computation in checking position against `t`.
     pub fn comp(&mut self, c: &Comp, t: &CTy) {
+        if let Some(ch) = self.mut_site(if matches!(t, CTy::Codata(_)) { 4 } else { 3 }) {
+            self.mutate_comp(c, t, ch);
+            return;
+        }
         if self.style.blocks && matches!(c, Comp::Do(..) | Comp::Let(..) | Comp::Match(..)) {
             self.p("begin");
             self.comp_inner(c, t);
@@ -554,11 +604,12 @@ impl<'a> Printer<'a> {
         }
     }
 
-    fn comp_inner(&mut self, c: &Comp, t: &CTy) {
+    pub(crate) fn comp_inner(&mut self, c: &Comp, t: &CTy) {
         match c {
             | Comp::Ret(v) => {
                 let CTy::Ret(a) = t else { panic!("harness: ret against {t:?}") };
                 self.p("ret");
+                self.hint = "ret";
                 self.val(v, a);
             }
             | Comp::Do(p, a, m, n) => {
@@ -567,16 +618,29 @@ impl<'a> Printer<'a> {
                 self.p("<-");
                 self.head(m, &CTy::Ret(Box::new(a.clone())), false);
                 self.p(";");
+                self.hint = "do-tail";
                 self.comp(n, t);
             }
             | Comp::Let(p, a, v, n) => {
                 self.p(if self.style.def_values { "def" } else { "let" });
                 self.pat(p);
                 self.p(":");
-                self.vty(a, 5);
-                self.p("=");
-                self.val(v, a);
+                // only a variable bindee has a type the annotation cannot re-interpret
+                let site = if matches!(v, Val::Var(_)) { self.mut_site(12) } else { None };
+                if let Some(ch) = site {
+                    let a2 = self.near_v(a, ch);
+                    self.applied("let-annotation-changed", false, Self::former_v(a), "let");
+                    self.vty(&a2, 5);
+                    self.p("=");
+                    self.val_inner(v, a);
+                } else {
+                    self.vty(a, 5);
+                    self.p("=");
+                    self.hint = "let-bindee";
+                    self.val(v, a);
+                }
                 self.p("in");
+                self.hint = "let-body";
                 self.comp(n, t);
             }
             | Comp::Fn(..) => {
@@ -593,6 +657,7 @@ impl<'a> Printer<'a> {
                     }
                 }
                 self.p("=>");
+                self.hint = "fn-body";
                 self.comp(cur, ty);
             }
             | Comp::TFn(x, is_c, m) => {
@@ -605,18 +670,54 @@ impl<'a> Printer<'a> {
                 let n = self.names.tyvar[*x as usize].clone();
                 self.p(&n);
                 self.p(":");
-                self.p(if *is_c { "CType" } else { "VType" });
+                let mut is_c = *is_c;
+                if self.mut_site(15).is_some() {
+                    self.applied("type-binder-kind-changed", false, "Forall", "type-abstraction");
+                    is_c = !is_c;
+                }
+                self.p(if is_c { "CType" } else { "VType" });
                 self.p(")");
                 self.p("=>");
+                self.hint = "type-abstraction-body";
                 self.comp(m, body_ty);
             }
             | Comp::App(h, ht, v) => {
                 let CTy::Arrow(a, _) = ht else { panic!("harness: application head type {ht:?}") };
                 self.head(h, ht, false);
+                if let Some(ch) = self.mut_site(5) {
+                    self.applied("function-eliminated-at-wrong-former", false, "Arrow", "application");
+                    self.p(if ch % 2 == 0 { ".zq" } else { "Int64" });
+                    return;
+                }
+                self.hint = "argument";
                 self.val(v, a);
             }
             | Comp::TApp(h, ht, arg) => {
                 self.head(h, ht, false);
+                if let Some(ch) = self.mut_site(6) {
+                    match ch % 3 {
+                        | 0 => {
+                            self.applied("type-argument-of-wrong-kind", false, "Forall", "type-application");
+                            match arg {
+                                | TyArg::V(_) => {
+                                    for tok in ["(", "Ret", "Unit", ")"] {
+                                        self.p(tok);
+                                    }
+                                }
+                                | TyArg::C(_) => self.p("Unit"),
+                            }
+                        }
+                        | 1 => {
+                            self.applied("forall-eliminated-at-wrong-former", false, "Forall", "type-application");
+                            self.p("5");
+                        }
+                        | _ => {
+                            self.applied("forall-eliminated-at-wrong-former", false, "Forall", "type-application");
+                            self.p(".zq");
+                        }
+                    }
+                    return;
+                }
                 self.tyarg(arg);
             }
             | Comp::Force(v, b) => {
@@ -630,6 +731,7 @@ impl<'a> Printer<'a> {
                     self.p("|");
                     self.pat(&arm.pat);
                     self.p("=>");
+                    self.hint = "match-arm";
                     self.comp(&arm.body, t);
                 }
                 self.p("end");
@@ -639,7 +741,12 @@ impl<'a> Printer<'a> {
                 for cl in clauses {
                     let decl = self.prog.codatas[*cd].dtors[cl.dtor].clone();
                     self.p("|");
-                    self.p(&decl.name);
+                    if self.mut_site(8).is_some() {
+                        self.applied("unknown-destructor", false, "Codata", "comatch-clause");
+                        self.p(".zq");
+                    } else {
+                        self.p(&decl.name);
+                    }
                     for (p, a) in &cl.params {
                         if self.style.annotate_coparams {
                             self.pat_ann(p, a);
@@ -653,6 +760,7 @@ impl<'a> Printer<'a> {
                     for a in decl.params[cl.params.len()..].iter().rev() {
                         rt = CTy::Arrow(Box::new(a.clone()), Box::new(rt));
                     }
+                    self.hint = "comatch-clause";
                     self.comp(&cl.body, &rt);
                 }
                 self.p("end");
@@ -660,8 +768,19 @@ impl<'a> Printer<'a> {
             | Comp::Dtor(h, cd, d, args) => {
                 let decl = self.prog.codatas[*cd].dtors[*d].clone();
                 self.head(h, &CTy::Codata(*cd), false);
+                if let Some(ch) = self.mut_site(7) {
+                    if ch % 2 == 0 {
+                        self.applied("unknown-destructor", false, "Codata", "destructor");
+                        self.p(".zq");
+                    } else {
+                        self.applied("codata-eliminated-at-wrong-former", false, "Codata", "destructor");
+                        self.p("()");
+                    }
+                    return;
+                }
                 self.p(&decl.name);
                 for (a, ty) in args.iter().zip(decl.params.iter()) {
+                    self.hint = "destructor-argument";
                     self.val(a, ty);
                 }
             }
@@ -671,9 +790,16 @@ impl<'a> Printer<'a> {
                 let n = self.names.binder[*f as usize].clone();
                 self.p(&n);
                 self.p(":");
-                self.vty(&VTy::Thk(Box::new(b.clone())), 5);
+                if let Some(ch) = self.mut_site(14) {
+                    let b2 = self.near_c(b, ch);
+                    self.applied("fix-annotation-changed", false, Self::former_c(b), "fix");
+                    self.vty(&VTy::Thk(Box::new(b2)), 5);
+                } else {
+                    self.vty(&VTy::Thk(Box::new(b.clone())), 5);
+                }
                 self.p(")");
                 self.p("=>");
+                self.hint = "fix-body";
                 self.comp(m, b);
             }
         }
@@ -787,6 +913,9 @@ impl<'a> Printer<'a> {
         self.p("begin");
         self.p("\n");
         self.decls();
+        if let Some(m) = self.mutator.as_mut() {
+            m.decl_insert = Some(self.out.len());
+        }
         self.p("(");
         self.comp(&self.prog.main.clone(), &CTy::OS);
         self.p(":");
@@ -795,6 +924,12 @@ impl<'a> Printer<'a> {
         self.p("\n");
         self.p("end");
         self.p("\n");
+        if let Some(m) = self.mutator.as_mut() {
+            if let (Some(at), false) = (m.decl_insert, m.extra_decl.is_empty()) {
+                let extra = std::mem::take(&mut m.extra_decl);
+                self.out.splice(at..at, extra);
+            }
+        }
     }
 }
 
